@@ -33,7 +33,7 @@ VARIABLE
   \* @type: Int;
   t
 
-CInit == /\ C \in Nat /\ C >= 1 /\ D \in Nat /\ N \in Nat /\ Rev \in BOOLEAN /\ Inf \in BOOLEAN
+CInit == /\ C \in Nat /\ C >= 1 /\ D \in Int /\ N \in Nat /\ Rev \in BOOLEAN /\ Inf \in BOOLEAN
          /\ Bug = FALSE /\ Wrap = FALSE /\ M = 2
 CInitBug == /\ C \in Nat /\ C >= 1 /\ D \in Nat /\ N \in Nat /\ Rev \in BOOLEAN /\ Inf \in BOOLEAN
             /\ Bug = TRUE /\ Wrap = FALSE /\ M = 2
